@@ -151,6 +151,11 @@ def check(prop, tier, seed):
                 fails.append(c)
             if 'NOCORR' in mv:
                 continue
+            if mv.get('MODELERR') == 'stack_overflow':
+                # the executable model recurses on unary numbers: a position near 2^32 (a wrapped u32 in
+                # the implementation) exhausts its stack.  The case is not compared; it is counted.
+                stats['model_not_evaluable'] = stats.get('model_not_evaluable', 0) + 1
+                continue
             if project(spec, c.kind, iv) != project(spec, c.kind, mv):
                 mismatches.append(c)
         if getattr(spec, 'xcheck', None):
@@ -184,6 +189,7 @@ def check(prop, tier, seed):
     # ---- 4. verdicts ----
     known = [k for k in load_known() if k.get('property') == prop and k.get('status', 'open') == 'open']
     reported_classes = set()
+    known_samples = {}
     new_fail_replays = 0
     for c in fails:
         if isinstance(c, dict):      # produced by an extra routine: already a replay payload
@@ -202,6 +208,8 @@ def check(prop, tier, seed):
             if tok.startswith('KF='):
                 kf = tok[3:]
         if kf and any(k['class'] == kf for k in known):
+            if kf not in reported_classes:
+                known_samples[kf] = case_line(spec, c).split(' ', 1)[1]
             reported_classes.add(kf)
             continue
         if new_fail_replays >= 3:
@@ -261,13 +269,14 @@ def check(prop, tier, seed):
             if small is not None:
                 keys = spec.kinds[c.kind].get('proj')
                 small = shrink(spec, bindir, c.kind, c.obj,
-                               lambda i, m, vv: project(spec, c.kind, i) != project(spec, c.kind, m), budget=200)
+                               lambda i, m, vv: project(spec, c.kind, i) != project(spec, c.kind, m) and not str(vv).startswith('SKIP'), budget=200)
                 line, i1, m1, v1 = eval_one(spec, bindir, c.kind, small)
             else:
                 line, i1, m1, v1 = case_line(spec, c), impl.get(c.cid), model.get(c.cid), verdict.get(c.cid)
             path = write_replay(prop, {'property': prop, 'kind': 'correspondence-broken',
                                        'correspondence': 'projection %s of kind %s (model %s vs implementation)' % (spec.kinds[c.kind].get('proj'), c.kind, spec.model_name),
                                        'first_diverging_case': line.split(' ', 1)[1], 'seed': seed,
+                                       'original_case': case_line(spec, c).split(' ', 1)[1],
                                        'impl_observation': i1, 'model_observation': m1,
                                        'diverging_cases': len(corr_only),
                                        'note': 'the model no longer describes the code; no input violating the property was found in the generated set, the corpus or the neighbourhood of the diverging cases'})
@@ -298,6 +307,7 @@ def check(prop, tier, seed):
                                'checker_fail': len(fails), 'checker_skip_out_of_domain': skipped,
                                'projection': {k: v.get('proj') for k, v in spec.kinds.items()}},
             'input_distribution': stats,
+            'known_finding_samples': known_samples,
             'explanation': spec.explanation,
             'notes': notes,
         },
